@@ -56,6 +56,8 @@ import PS.Proofs.Enum.HSPrologueTotal
 import PS.Proofs.Enum.GInst
 import PS.Proofs.Enum.UHeaps
 import PS.Proofs.Enum.UOrderCheck
+import PS.Proofs.Enum.UProb
+import PS.Proofs.Enum.UCompleteRun
 namespace PS.C03HS
 open PS PS.G PS.HS
 
@@ -533,6 +535,45 @@ theorem C03_HS_U_sorted_prob (E : UHS.Env U Rat) (rank : UHS.UNT U → Nat) (hop
   rw [hops] at this
   simpa [UHS.probOps, Rat.not_lt] using this
 
+/-- **BEST-FIRST ORDER IN TERMS OF THE SPECIFICATION**: on an acyclic unambiguous grammar the probabilities
+    `U.probU` (PS/Model/Prob.lean: weight of the start symbol × product of the rule weights of the unique
+    derivation) of the programs yielded by `UHeapSearch` are non-increasing — every fuel, every prefix,
+    several start symbols.  (`UHS.startKey_probU`: the key of the start heap is `U.probU`.) -/
+theorem C03_HS_U_sorted_probU (E : UHS.Env U Rat) (rank : UHS.UNT U → Nat) (hops : E.ops = UHS.probOps 0)
+    (R : RHyp E rank (fun v : Rat => 0 ≤ v)) (hkeys : ∀ nt F, ((UHS.altsOf E nt F).map (·.1)).Nodup) (d0 : UHS.UNT U)
+    (hun : ∀ p, PS.U.unambiguousOn (E.G.toUCFG d0) p = true) (fuel k : Nat) (s' : UHS.St U Rat) (out : List Prog) (b : Bool)
+    (h : UHS.take E fuel k (UHS.St.empty E.G) [] = some (s', out, b)) :
+    out.Pairwise (fun p q => PS.U.probU (E.G.toUCFG d0) E.G.toTags q ≤ PS.U.probU (E.G.toUCFG d0) E.G.toTags p) := by
+  have hsound := ((sinv_empty E).take R.ohyp.ghyp k (by intro q hq; cases hq) h).2
+  refine (C03_HS_U_sorted_prob E rank hops R fuel k s' out b h).imp_of_mem ?_
+  intro p q hp hq hpq
+  obtain ⟨nt, w, hw, pr, hpr⟩ := hsound p hp
+  obtain ⟨nt', w', hw', pr', hpr'⟩ := hsound q hq
+  rw [startKey_probU E 0 hops hkeys d0 p (hun p) nt w pr hw hpr,
+    startKey_probU E 0 hops hkeys d0 q (hun q) nt' w' pr' hw' hpr']
+  exact hpq nt w pr nt' w' pr' hw hpr hw' hpr'
+
+/-- **every strictly more probable program was yielded before** (complete runs): when the generator has
+    stopped (it does: `C02_HS_U_full`), a member `p` that is strictly more probable than a yielded `q`
+    occurs before `q` -/
+theorem C03_HS_U_more_probable_before (E : UHS.Env U Rat) (rank : UHS.UNT U → Nat) (hops : E.ops = UHS.probOps 0)
+    (R : RHyp E rank (fun v : Rat => 0 ≤ v)) (hkeys : ∀ nt F, ((UHS.altsOf E nt F).map (·.1)).Nodup) (d0 : UHS.UNT U)
+    (hun : ∀ p, PS.U.unambiguousOn (E.G.toUCFG d0) p = true) (fuel k : Nat) (s' : UHS.St U Rat) (l1 l2 : List Prog)
+    (q p : Prog) (h : UHS.take E fuel k (UHS.St.empty E.G) [] = some (s', l1 ++ q :: l2, true))
+    (hp : PS.U.genU (E.G.toUCFG d0) p = true)
+    (hlt : PS.U.probU (E.G.toUCFG d0) E.G.toTags q < PS.U.probU (E.G.toUCFG d0) E.G.toTags p) : p ∈ l1 := by
+  have hsorted := C03_HS_U_sorted_probU E rank hops R hkeys d0 hun fuel k s' _ true h
+  obtain ⟨nt, w, hw, hd⟩ := (derStart_iff_genU E d0 p).mpr hp
+  have hmem : p ∈ l1 ++ q :: l2 := take_complete R fuel k s' _ h p nt w hw hd
+  rcases List.mem_append.mp hmem with h1 | h2
+  · exact h1
+  · exfalso
+    have hpw := (List.pairwise_append.mp hsorted).2.1
+    rcases List.mem_cons.mp h2 with rfl | h3
+    · exact absurd hlt (Rat.lt_irrefl)
+    · have := (List.pairwise_cons.mp hpw).1 p h3
+      exact absurd hlt (Rat.not_lt.mpr this)
+
 def uRank (nt : UHS.UNT Nat) : Nat := nt.2
 
 theorem uE_rhyp : RHyp uE uRank (fun v : Rat => 0 ≤ v) :=
@@ -543,6 +584,19 @@ example : ∀ k s' out b, UHS.take uE 60 k (UHS.St.empty uG) [] = some (s', out,
     out.Pairwise (fun p q => ∀ nt w pr nt' w' pr', UHS.startW uE nt = some w → HasPrio uE p nt pr →
       UHS.startW uE nt' = some w' → HasPrio uE q nt' pr' → pr' * w' ≤ pr * w) :=
   fun k s' out b h => C03_HS_U_sorted_prob uE uRank rfl uE_rhyp 60 k s' out b h
+
+theorem uE_unamb : ∀ p, PS.U.unambiguousOn (uG.toUCFG u0) p = true := by
+  intro p
+  -- bottom-up determinism + distinct alternative keys + distinct start symbols
+  exact unambiguous_of_budet uE u0 (budet_of_check uE (by decide)) (altKeys_of_check uE (by decide)) (by decide) p
+
+example : ∀ k s' out b, UHS.take uE 60 k (UHS.St.empty uG) [] = some (s', out, b) →
+    out.Pairwise (fun p q => PS.U.probU (uG.toUCFG u0) uG.toTags q ≤ PS.U.probU (uG.toUCFG u0) uG.toTags p) :=
+  fun k s' out b h => C03_HS_U_sorted_probU uE uRank rfl uE_rhyp (altKeys_of_check uE (by decide)) u0 uE_unamb 60 k s' out b h
+
+/-- the probabilities of the 22 programs of the example in the order of the enumeration -/
+example : (UHS.take uE 60 6 (UHS.St.empty uG) []).map (fun r => r.2.1.map (PS.U.probU (uG.toUCFG u0) uG.toTags)) =
+    some [3/16, 9/64, 81/640, 27/320, 1/16, 3/64] := by decide +kernel
 end UMachine
 
 end PS.C03HS
